@@ -153,6 +153,19 @@ func genC02(g *genCtx) {
 	for i := 0; i < g.scale(300, 1200); i++ {
 		leakPool = append(leakPool, leakDoc(r))
 	}
+	// existence tests whose path ends in a step with a function-valued predicate (the builder evaluates such a step
+	// parent by parent and buffers each parent's matches): what one candidate leaves unread must not reach the next
+	for i := 0; i < g.scale(3000, 30000); i++ {
+		d := leakPool[r.intn(len(leakPool))]
+		nm := func() string { return r.pick([]string{"a", "b", "*"}) }
+		fp := r.pick([]string{"not(a)", "not(b)", "not(*)", "true()", "contains(local-name(), 'b')", "starts-with(local-name(), 'a')", "string-length(.) = 0", "boolean(*)", "not(@k)", "count(*) = 0"})
+		inner := nm() + "/" + nm() + "[" + fp + "]"
+		if r.chance(1, 3) {
+			inner = nm() + "/" + nm() + "/" + nm() + "[" + fp + "]"
+		}
+		pr := r.pick([]string{inner, "not(" + inner + ")", inner + " and " + nm(), inner + " or @k", nm() + " and " + inner, inner + " and not(" + inner + ")"})
+		g.add(&Case{Kind: "sel", Doc: d, Ctx: Ref{0, -1}, Expr: r.pick([]string{"//*", "//a", "//b", "/*/*", "//*/*"}) + "[" + pr + "]"})
+	}
 	tests := []string{"a", "b", "a", "b", "*"}
 	for _, a1 := range axes12 {
 		for _, a2 := range axes12 {
@@ -196,10 +209,12 @@ func leakDoc(r *rng) Doc {
 		{{Depth: 0, Kind: 'e', Name: "a"}, {Depth: 1, Kind: 'e', Name: "b"}, {Depth: 1, Kind: 'e', Name: "a"}},
 		{{Depth: 0, Kind: 'e', Name: "b"}, {Depth: 1, Kind: 't', Data: "1"}},
 		{{Depth: 0, Kind: 'e', Name: "a", Attrs: []Attr{{Name: "k", Val: "1"}}}},
+		{{Depth: 0, Kind: 'e', Name: "a"}, {Depth: 1, Kind: 'e', Name: "b"}, {Depth: 1, Kind: 'e', Name: "b"}},
+		{{Depth: 0, Kind: 'e', Name: "b"}, {Depth: 1, Kind: 'e', Name: "a"}, {Depth: 1, Kind: 'e', Name: "a"}, {Depth: 2, Kind: 'e', Name: "b"}},
 	}
 	cand := r.pick([]string{"a", "b"})
 	n := 3 + r.intn(3)
-	weighted := []int{0, 1, 2, 3, 3, 3, 4, 5, 6, 6, 7, 8}
+	weighted := []int{0, 1, 2, 3, 3, 3, 4, 5, 6, 6, 7, 8, 9, 9, 10}
 	for i := 0; i < n; i++ {
 		d = append(d, Rec{Depth: base, Kind: 'e', Name: cand})
 		k := r.intn(3)
